@@ -2,8 +2,10 @@ package frame
 
 import (
 	"fmt"
+	"go/constant"
 	"go/token"
 	"go/types"
+	"sort"
 	"strings"
 
 	"golang.org/x/tools/go/ssa"
@@ -413,5 +415,87 @@ func GuardedState(prog *load.Program, roots []*ssa.Function, g *ssa.Global, entr
 	}
 	res.OK = true
 	res.Detail = strings.Join(notes, "; ")
+	return res
+}
+
+// ConstantGlobal: the package variable holds the string constant `want` whenever any
+// function of the program runs after package initialisation: its only store in the
+// functions reachable from /repo's initialisers and main functions is the initialiser's
+// store of that constant, and its address is used for nothing but loads. This discharges, at
+// every caller at once, a precondition of the form `Var == "lit"`.
+func ConstantGlobal(prog *load.Program, rel, name, want string) Result {
+	res := Result{Name: rel + ":" + name + "/is-always[" + want + "]", Func: name}
+	pkg := prog.ByRel[rel]
+	if pkg == nil {
+		res.Detail = "no such package"
+		return res
+	}
+	g, ok := pkg.Members[name].(*ssa.Global)
+	if !ok {
+		res.Detail = "no such package variable (a constant of that name needs no obligation; anything else is outside the subset)"
+		if c, isConst := pkg.Members[name].(*ssa.NamedConst); isConst && c.Value != nil && c.Value.Value != nil &&
+			c.Value.Value.Kind() == constant.String && constant.StringVal(c.Value.Value) == want {
+			res.OK = true
+			res.Detail = "declared constant with that value"
+		}
+		return res
+	}
+	res.Pos = prog.Pos(g.Pos())
+	inits := 0
+	var bad []string
+	// what can run: everything reachable from the package initialisers and main functions
+	// of /repo (static calls, closures, function values, interface implementations); a
+	// function nothing reaches cannot change the variable
+	var roots []*ssa.Function
+	for _, p := range prog.ByRel {
+		for _, n := range []string{"init", "main"} {
+			if f, ok := p.Members[n].(*ssa.Function); ok {
+				roots = append(roots, f)
+			}
+		}
+	}
+	reach := Reachable(prog, roots)
+	reach[pkg.Members["init"].(*ssa.Function)] = true
+	for fn := range reach {
+		for _, b := range fn.Blocks {
+			for _, in := range b.Instrs {
+				uses := false
+				for _, op := range in.Operands(nil) {
+					if op != nil && *op == ssa.Value(g) {
+						uses = true
+					}
+				}
+				if !uses {
+					continue
+				}
+				switch x := in.(type) {
+				case *ssa.UnOp:
+					if x.Op == token.MUL && x.X == ssa.Value(g) {
+						continue // a load
+					}
+				case *ssa.DebugRef:
+					continue
+				case *ssa.Store:
+					c, isConst := x.Val.(*ssa.Const)
+					if x.Addr == ssa.Value(g) && fn.Pkg == pkg && fn.Name() == "init" && isConst && c.Value != nil &&
+						c.Value.Kind() == constant.String && constant.StringVal(c.Value) == want {
+						inits++
+						continue
+					}
+				}
+				bad = append(bad, fnKey(fn)+" at "+prog.Pos(in.Pos())+": "+in.String())
+			}
+		}
+	}
+	sort.Strings(bad)
+	switch {
+	case len(bad) > 0:
+		res.Detail = "stored, or its address used, outside the initialiser's store of the constant: " + strings.Join(bad, "; ")
+	case inits != 1:
+		res.Detail = fmt.Sprintf("%d stores of the constant in the package initialiser (want exactly 1)", inits)
+	default:
+		res.OK = true
+		res.Detail = fmt.Sprintf("one store of the constant in the package initialiser; every other use in the %d functions reachable from the initialisers and main functions of /repo is a load", len(reach))
+	}
 	return res
 }
